@@ -17,6 +17,7 @@ import traceback
 
 from . import core
 from .core import HarnessError
+from .classes import EXTRA
 
 PROPS = {
     'C01': 'c01_omd', 'C02': 'c02_cache', 'C03': 'c03_threads', 'C04': 'c04_crash',
@@ -376,7 +377,7 @@ def main(argv=None):
         'distinct_nontrivial': len(agg['nt']),
         'distinct_cases': len(agg['distinct']),
         'inner_executions': agg.get('units', 0),
-        'rule': getattr(mod, 'RULE', ''),
+        'rule': getattr(mod, 'RULE', '') + (' Generator classes added after the seeded-change rounds: %s.' % EXTRA[prop_id] if prop_id in EXTRA else ''),
         'samples': samples,
         'per_sub': per_sub,
         'labels': dict(sorted(agg['labels'].items())),
